@@ -350,6 +350,17 @@ class FakeUniverse:
         return self._ag
 
 
+def _rotation_stub(per_frame):
+    """stand-in for the rotation recovery (eigen-decomposition + SVD: outside): the given index per frame; if the caller asks for a
+    subset of frames (any spelling of such an argument), the indices of exactly those frames"""
+    def stub(*a, **k):
+        sel = a[0] if a else next((v for v in k.values() if v is not None), None)
+        if sel is None:
+            return per_frame
+        return np.asarray(per_frame)[[int(i) for i in np.asarray(sel).reshape(-1)]]
+    return stub
+
+
 class NoDescribe:
     def __init__(self, *a, **k):
         pass
@@ -627,7 +638,7 @@ def run_compose(shape):
             ag = FrameAG(traj, [sarr([SR(x) for x in cf]) for cf in C])
             at.trajectory_universe = FakeUniverse(traj, ag)      # the frames of this run (centre of mass per frame symbolic)
             at.stop = nf
-            at._get_quaternion_assignments = lambda: bstub
+            at._get_quaternion_assignments = _rotation_stub(bstub)
             return at.get_full_assignments()
 
     Rb, _, _, _, _ = position_spec(1, n_t, [z3.RealVal(1)], {}, {}, r, zero=z3.RealVal(0))
@@ -800,7 +811,7 @@ def replay(cex):
         traj = FakeTraj(nf)
         at.trajectory_universe = FakeUniverse(traj, FrameAG(traj, [np.asarray(c) for c in coms]))
         at.stop = nf
-        at._get_quaternion_assignments = lambda: bstub
+        at._get_quaternion_assignments = _rotation_stub(bstub)
         old = (T.AnalysisFromFunction,)
         T.AnalysisFromFunction = FakeAnalysis
         try:
